@@ -108,7 +108,8 @@ class Run:
     # ---------- TLC ----------
     def tlc_cmd(self, module, cfg=None, workers=None, extra=(), heap="6g"):
         md = tempfile.mkdtemp(prefix="md-", dir=self.scratch)
-        cmd = ["java", "-XX:+UseParallelGC", "-Xmx" + heap, "-Xss64m",
+        w = workers or NCPU
+        cmd = ["java", "-XX:+UseParallelGC", "-XX:ParallelGCThreads=%d" % (2 if w == 1 else min(8, NCPU)), "-Xmx" + heap, "-Xss64m",
                "-cp", "/opt/veriftools/tla/tla2tools.jar:/opt/veriftools/tla/CommunityModules-deps.jar",
                "tlc2.TLC", "-workers", str(workers or NCPU), "-metadir", md, "-noGenerateSpecTE"]
         if cfg:
@@ -183,7 +184,10 @@ class Run:
         t0 = time.time()
         st = {"generated": 0, "distinct": 0}
         if source_file:
-            ep = subprocess.run(ecmd + ["--in", source_file], cwd=self.scratch, capture_output=True, text=True, timeout=timeout)
+            try:
+                ep = subprocess.run(ecmd + ["--in", source_file], cwd=self.scratch, capture_output=True, text=True, timeout=timeout)
+            except subprocess.TimeoutExpired:
+                raise Infra("timeout in the %s driver on %s" % (tool, source_file))
             if ep.returncode != 0:
                 raise Infra("events driver failed: %s %s" % (ep.stdout[-1000:], ep.stderr[-2000:]))
             eout = ep.stdout
